@@ -140,7 +140,8 @@ class World:
                 rel.data[k] = v
             rel.freeze_data()
         for k, v in self.cfg.get("importance", {}).items():
-            rel.var_importance[k] = v
+            if k not in data:   # never un-freeze an input ourselves
+                rel.var_importance[k] = v
         return rel, data, fd
 
     # -- operations ---------------------------------------------------------
